@@ -37,6 +37,10 @@ import (
 //         runtime client built lazily (Transport, Jar) or preset (NewWithClient); every client marked by what only
 //         the client object determines: redirect policy, cookie jar, timeout (and its transport, the process-wide
 //         default one when it has none)
+//   ctx   one Submit whose operation context and runtime context are each absent / plain / with a deadline (earlier
+//         or later than the other's) / cancelled beforehand, with or without a request timeout; the round tripper records
+//         whose VALUE and which DEADLINE reach it, then (optionally) cancels the operation's or the runtime's context
+//         and records whether the request context ends; Submit must fail exactly then
 
 type c13Header struct {
 	Key    Bs   `json:"key"` // canonical
@@ -82,6 +86,26 @@ type c13In struct {
 	Slow     bool       `json:"slow,omitempty"`      // the first answer takes longer than any client timeout
 	// seq
 	Calls []c13Call `json:"calls,omitempty"`
+	// ctx
+	OpCtxCfg    *c13Ctx `json:"op_ctx_cfg,omitempty"`   // nil: the operation has no context
+	RtCtxCfg    *c13Ctx `json:"rt_ctx_cfg,omitempty"`   // nil: the runtime has no context
+	TimeoutRank int     `json:"timeout_rank,omitempty"` // request timeout (hours from now); 0 none
+	Action      int     `json:"action,omitempty"`       // cancelled while the round tripper holds the request: 0 nothing, 1 the operation context, 2 the runtime context
+}
+
+// c13Ctx describes a context by what the context itself determines (besides the value telling whose it is).
+type c13Ctx struct {
+	Deadline  int  `json:"deadline,omitempty"`  // rank: that many hours from the start of the case; 0 none
+	Cancelled bool `json:"cancelled,omitempty"` // cancelled before the call
+	Outer     bool `json:"outer,omitempty"`     // the value is attached outside (after) the deadline and the cancel wrapper rather than inside
+}
+
+type c13Seen struct {
+	Value    int    `json:"value"`    // 0 operation, 1 runtime, 2 neither, 9 the round tripper was never reached
+	Deadline int    `json:"deadline"` // rank of the deadline of the request context; 0 none
+	Ended    bool   `json:"ended"`
+	Failed   bool   `json:"failed"`
+	Msg      string `json:"msg,omitempty"`
 }
 
 type c13View struct {
@@ -116,28 +140,29 @@ type c13Query struct {
 }
 
 type c13Obs struct {
-	Panicked   bool       `json:"panicked,omitempty"`
-	Panic      string     `json:"panic,omitempty"`
-	Outcome    int        `json:"outcome"`
-	Tag        int        `json:"tag"`
-	Code       int        `json:"code"`
-	Status     Bs         `json:"status"`
-	Body       Bs         `json:"body"`
-	Msg        Bs         `json:"msg,omitempty"`
-	Client     int        `json:"client"`
-	Ctx        int        `json:"ctx"`
-	Returned   bool       `json:"returned"`
-	Queries    []c13Query `json:"queries,omitempty"`
-	Parsed     *Bs        `json:"parsed,omitempty"`
-	QHeader    Bs         `json:"q_header,omitempty"`
-	QDefault   Bs         `json:"q_default,omitempty"`
-	Mismatches int        `json:"mismatches"`
-	Errors     int        `json:"errors"`
-	FirstErr   string     `json:"first_err,omitempty"`
-	Stale      int        `json:"stale,omitempty"`
-	FirstStale string     `json:"first_stale,omitempty"`
-	Trace      *c13Trace  `json:"trace,omitempty"`
+	Panicked   bool        `json:"panicked,omitempty"`
+	Panic      string      `json:"panic,omitempty"`
+	Outcome    int         `json:"outcome"`
+	Tag        int         `json:"tag"`
+	Code       int         `json:"code"`
+	Status     Bs          `json:"status"`
+	Body       Bs          `json:"body"`
+	Msg        Bs          `json:"msg,omitempty"`
+	Client     int         `json:"client"`
+	Ctx        int         `json:"ctx"`
+	Returned   bool        `json:"returned"`
+	Queries    []c13Query  `json:"queries,omitempty"`
+	Parsed     *Bs         `json:"parsed,omitempty"`
+	QHeader    Bs          `json:"q_header,omitempty"`
+	QDefault   Bs          `json:"q_default,omitempty"`
+	Mismatches int         `json:"mismatches"`
+	Errors     int         `json:"errors"`
+	FirstErr   string      `json:"first_err,omitempty"`
+	Stale      int         `json:"stale,omitempty"`
+	FirstStale string      `json:"first_stale,omitempty"`
+	Trace      *c13Trace   `json:"trace,omitempty"`
 	Seq        []c13SeqObs `json:"seq,omitempty"`
+	Seen       *c13Seen    `json:"seen,omitempty"`
 }
 
 type c13 struct{}
@@ -150,8 +175,9 @@ func (c13) Rule() string {
 	return "Submit against a stub RoundTripper: response Content-Type registered / unregistered / with parameters / other case / absent / empty / several values / malformed, " +
 		"consumer registries with and without */* (and with a never-matching upper-case key), default media types, status codes and texts, header sets queried under several spellings, " +
 		"operation-level vs transport-level client and context; route cases: operation client absent / with / without a Transport of its own x runtime client lazily built or preset, each marked by redirect policy, cookie jar, timeout, against a redirecting (optionally slow) stub; " +
+		"context cases: operation context and runtime context each absent / plain / with a deadline earlier or later than the other's / cancelled beforehand, with and without a request timeout, the operation's or the runtime's context cancelled while the round tripper holds the request (observed: whose value and which deadline arrive, whether the request context ends, whether Submit fails); " +
 		"sequences of calls on one Runtime whose readers keep the ClientResponse and ask it again after later calls; plus concurrent cases: G goroutines x K calls on one fresh Runtime with correlation tokens, stub transport or a real httptest server, under the race detector. " +
-		"Non-trivial: a response case whose registry has at least two entries, or any route, sequence or concurrent case."
+		"Non-trivial: a response case whose registry has at least two entries, or any route, context, sequence or concurrent case."
 }
 
 func (c13) Decode(raw json.RawMessage) (any, error) {
@@ -218,6 +244,8 @@ func (c13) Run(inAny any) any {
 		return c13RunRoute(in)
 	case "seq":
 		return c13RunSeq(in)
+	case "ctx":
+		return c13RunCtx(in)
 	}
 	var obs c13Obs
 	obs.Client, obs.Ctx = 9, 9
@@ -475,9 +503,9 @@ const (
 )
 
 type c13Rec struct {
-	mu                                   sync.Mutex
+	mu                                     sync.Mutex
 	transport, redirect, jar, cookie, hops int
-	ctx                                  int
+	ctx                                    int
 }
 
 func (r *c13Rec) or(field *int, who int) {
@@ -767,12 +795,158 @@ func c13RunSeq(in c13In) c13Obs {
 	return obs
 }
 
+// ---------- which context the call runs under ----------
+
+const c13CancelWait = 15 * time.Millisecond // how long a cancellation that must NOT end the call is given to show
+
+type c13CtxStub struct {
+	base               time.Time
+	action             int
+	cancelOp, cancelRt context.CancelFunc
+	mu                 sync.Mutex
+	seen               c13Seen
+}
+
+func c13Rank(base, t time.Time) int { return int((t.Sub(base) + 30*time.Minute) / time.Hour) }
+
+func (s *c13CtxStub) RoundTrip(req *http.Request) (*http.Response, error) {
+	ctx := req.Context()
+	var seen c13Seen
+	switch ctx.Value(c13CtxKey{}) {
+	case "op":
+		seen.Value = 0
+	case "rt":
+		seen.Value = 1
+	default:
+		seen.Value = 2
+	}
+	if dl, ok := ctx.Deadline(); ok {
+		seen.Deadline = c13Rank(s.base, dl)
+	}
+	if req.Body != nil {
+		_, _ = io.Copy(io.Discard, req.Body)
+		_ = req.Body.Close()
+	}
+	seen.Ended = ctx.Err() != nil
+	if !seen.Ended {
+		var cancel context.CancelFunc
+		switch s.action {
+		case 1:
+			cancel = s.cancelOp
+		case 2:
+			cancel = s.cancelRt
+		}
+		if cancel != nil {
+			cancel()
+			select {
+			case <-ctx.Done():
+				seen.Ended = true
+			case <-time.After(c13CancelWait):
+			}
+		}
+	}
+	s.mu.Lock()
+	s.seen = seen
+	s.mu.Unlock()
+	if seen.Ended {
+		return nil, ctx.Err()
+	}
+	return &http.Response{StatusCode: 200, Status: "200 OK", Proto: "HTTP/1.1", ProtoMajor: 1, ProtoMinor: 1,
+		Header: http.Header{"Content-Type": {"application/json"}}, Body: io.NopCloser(strings.NewReader("{}")), ContentLength: 2, Request: req}, nil
+}
+
+// c13MakeCtx builds a context of its own (never derived from the other one) and returns the function cancelling it.
+func c13MakeCtx(cfg c13Ctx, whose string, base time.Time) (context.Context, context.CancelFunc) {
+	ctx := context.Background()
+	if !cfg.Outer {
+		ctx = context.WithValue(ctx, c13CtxKey{}, whose)
+	}
+	release := func() {}
+	if cfg.Deadline > 0 {
+		ctx, release = context.WithDeadline(ctx, base.Add(time.Duration(cfg.Deadline)*time.Hour))
+	}
+	ctx, cancel := context.WithCancel(ctx)
+	if cfg.Outer {
+		ctx = context.WithValue(ctx, c13CtxKey{}, whose)
+	}
+	if cfg.Cancelled {
+		cancel()
+	}
+	return ctx, func() { cancel(); release() }
+}
+
+func c13RunCtx(in c13In) c13Obs {
+	var obs c13Obs
+	base := time.Now()
+	stub := &c13CtxStub{base: base, action: in.Action, seen: c13Seen{Value: 9}}
+	rt := client.New("example.com", "/", []string{"http"})
+	rt.Transport = stub
+	rt.Consumers = map[string]runtime.Consumer{"application/json": &c13Consumer{1}}
+	rt.Context = nil
+	if in.RtCtxCfg != nil {
+		rt.Context, stub.cancelRt = c13MakeCtx(*in.RtCtxCfg, "rt", base)
+		defer stub.cancelRt()
+	}
+	ran := false
+	op := &runtime.ClientOperation{
+		ID: "op", Method: "GET", PathPattern: "/x", ProducesMediaTypes: []string{"application/json"},
+		ConsumesMediaTypes: []string{"application/json"}, Schemes: []string{"http"},
+		Params: runtime.ClientRequestWriterFunc(func(req runtime.ClientRequest, _ strfmt.Registry) error {
+			return req.SetTimeout(time.Duration(in.TimeoutRank) * time.Hour)
+		}),
+		Reader: runtime.ClientResponseReaderFunc(func(resp runtime.ClientResponse, c runtime.Consumer) (interface{}, error) {
+			_, _ = io.ReadAll(resp.Body())
+			ran = true
+			return nil, nil
+		}),
+	}
+	if in.OpCtxCfg != nil {
+		op.Context, stub.cancelOp = c13MakeCtx(*in.OpCtxCfg, "op", base)
+		defer stub.cancelOp()
+	}
+	var err error
+	done := make(chan struct{})
+	go func() {
+		defer close(done)
+		obs.Panicked, obs.Panic = recoverTo(func() { _, err = rt.Submit(op) })
+	}()
+	select {
+	case <-done:
+	case <-time.After(20 * time.Second):
+		obs.Seen = &c13Seen{Value: 8, Failed: true, Msg: "watchdog: Submit did not return"}
+		return obs
+	}
+	stub.mu.Lock()
+	seen := stub.seen
+	stub.mu.Unlock()
+	seen.Failed = err != nil || !ran
+	if err != nil {
+		seen.Msg = err.Error()
+	}
+	obs.Seen = &seen
+	return obs
+}
+
 // ---------- rendering ----------
 
 func (c13) Coq(inAny any, obsAny any) string {
 	in, obs := inAny.(c13In), obsAny.(c13Obs)
 	if in.Kind == "conc" {
 		return fmt.Sprintf("CConc %d %d %d %d %d", in.G, in.K, obs.Mismatches, obs.Errors, obs.Stale)
+	}
+	if in.Kind == "ctx" {
+		cx := func(c *c13Ctx) string {
+			if c == nil {
+				return "None"
+			}
+			return fmt.Sprintf("(Some (mkctx %d %s))", c.Deadline, coqBool(c.Cancelled))
+		}
+		seen := obs.Seen
+		if seen == nil {
+			seen = &c13Seen{Value: 9, Failed: true}
+		}
+		return fmt.Sprintf("CCtx %s %s %d %d %s (mkseen %d %d %s %s)", cx(in.OpCtxCfg), cx(in.RtCtxCfg), in.TimeoutRank, in.Action,
+			coqBool(obs.Panicked), seen.Value, seen.Deadline, coqBool(seen.Ended), coqBool(seen.Failed))
 	}
 	if in.Kind == "route" {
 		cl := func(c c13Client) string {
@@ -884,6 +1058,29 @@ func (c13) Category(inAny any, obsAny any) (string, bool) {
 		}
 		return "route/op:" + name(in.OpCfg) + "/" + rtk + name(in.RtCfg) + slow + "/" + res, true
 	}
+	if in.Kind == "ctx" {
+		name := func(c *c13Ctx) string {
+			switch {
+			case c == nil:
+				return "absent"
+			case c.Cancelled:
+				return "cancelled"
+			case c.Deadline > 0:
+				return "deadline"
+			}
+			return "plain"
+		}
+		rel := ""
+		if in.OpCtxCfg != nil && in.RtCtxCfg != nil && in.RtCtxCfg.Deadline > 0 && (in.OpCtxCfg.Deadline == 0 || in.OpCtxCfg.Deadline > in.RtCtxCfg.Deadline) {
+			rel = "/rt-deadline-earlier"
+		}
+		act := []string{"no-cancel", "cancel-op", "cancel-rt"}[in.Action%3]
+		to := "/no-timeout"
+		if in.TimeoutRank > 0 {
+			to = "/timeout"
+		}
+		return "ctx/op:" + name(in.OpCtxCfg) + "/rt:" + name(in.RtCtxCfg) + rel + "/" + act + to, true
+	}
 	if in.Kind == "seq" {
 		fails := 0
 		for _, so := range obs.Seq {
@@ -962,6 +1159,9 @@ func (c13) Gen(r *rand.Rand, tier string, i int) any {
 	}
 	if i%13 == 12 {
 		return c13GenRoute(r)
+	}
+	if i%11 == 10 {
+		return c13GenCtx(r)
 	}
 	in := c13In{Kind: "resp", Default: Bs(c13Defaults[r.Intn(len(c13Defaults))])}
 	perm := r.Perm(len(c13Keys))
@@ -1050,6 +1250,27 @@ func c13GenRoute(r *rand.Rand) c13In {
 	return in
 }
 
+// operation deadlines have even ranks, runtime deadlines odd ones: never the same instant
+func c13GenCtxCfg(r *rand.Rand, odd int) *c13Ctx {
+	if r.Intn(5) == 0 {
+		return nil
+	}
+	c := &c13Ctx{Cancelled: r.Intn(6) == 0, Outer: r.Intn(3) == 0}
+	if r.Intn(2) == 0 {
+		c.Deadline = 2*(1+r.Intn(4)) + odd
+	}
+	return c
+}
+
+func c13GenCtx(r *rand.Rand) c13In {
+	in := c13In{Kind: "ctx", Default: "application/json", OpCtxCfg: c13GenCtxCfg(r, 0), RtCtxCfg: c13GenCtxCfg(r, 1)}
+	if r.Intn(2) == 0 {
+		in.TimeoutRank = 1 + r.Intn(11)
+	}
+	in.Action = []int{0, 1, 1, 2}[r.Intn(4)]
+	return in
+}
+
 var c13SeqCTs = []string{"application/json", "text/plain; charset=utf-8", "application/x-none", "application/vnd.api+json", ";", "<absent>", "application/xml"}
 
 func c13GenSeq(r *rand.Rand) c13In {
@@ -1134,6 +1355,23 @@ func (c13) Enumerate(tier string) []any {
 	for _, calls := range seqs {
 		for _, reg := range [][]Bs{{"application/json", "text/plain"}, {"application/json", "*/*"}} {
 			out = append(out, c13In{Kind: "seq", Default: "application/json", Registry: reg, Calls: calls})
+		}
+	}
+	// which context the call runs under: operation context {absent, plain, earlier deadline, later deadline, cancelled,
+	// cancelled with a deadline} x runtime context {the same} x what is cancelled during the call x request timeout
+	// {none, earlier than every deadline, between them, later}
+	opCtxs := []*c13Ctx{nil, {}, {Deadline: 2}, {Deadline: 6}, {Cancelled: true}, {Deadline: 2, Cancelled: true}, {Deadline: 6, Outer: true}}
+	rtCtxs := []*c13Ctx{nil, {}, {Deadline: 3}, {Deadline: 7}, {Cancelled: true}, {Deadline: 3, Cancelled: true}, {Deadline: 3, Outer: true}}
+	for _, oc := range opCtxs {
+		for _, rc := range rtCtxs {
+			for action := 0; action < 3; action++ {
+				for _, to := range []int{0, 1, 4, 9} {
+					if (to == 1 || to == 9) && action != 1 {
+						continue
+					}
+					out = append(out, c13In{Kind: "ctx", Default: "application/json", OpCtxCfg: oc, RtCtxCfg: rc, Action: action, TimeoutRank: to})
+				}
+			}
 		}
 	}
 	// client / context precedence: all eight combinations
